@@ -54,7 +54,9 @@ pub fn exec(op: &str, a: &[String]) -> Option<Reply> {
             Some(Reply::oracle(vec![
                 show_kind(td.kind()),
                 f.return_kind().to_string(),
-                u8::from(srct.contains(&format!("{fname}!("))).to_string(),
+                // "can fail": the call itself was only accepted with `!`, or an argument contains an
+                // abort-on-error call (then an error cannot be attributed to the outer function)
+                u8::from(srct.contains("!(")).to_string(),
                 u8::from(wrong).to_string(),
                 class,
                 value,
